@@ -261,7 +261,11 @@ def monitor(run, spec):
             stats["events"] += 1
             k = x["k"]
             if k in ("M", "L"):
+                vcci = dict((c["id"], c["cci"]) for c in x["ctx"]["view"])
                 for q in x["reqs"]:
+                    if q["type"] in (1, 2) and q["ccid"] != vcci.get(q["shard"]):
+                        bad.append(("C02", "%s request for shard %d carries membership version (conf change id) %d, the view it was computed from has version %s" % (
+                            RT[q["type"]], q["shard"], q["ccid"], vcci.get(q["shard"]))))
                     if q["type"] == 3:
                         stats["kill_req"] += 1
                         s, rid = q["shard"], q["members"][0]
@@ -445,16 +449,24 @@ def run_chunk(ck, binpath, specs, tag):
     return fout, rc, log
 
 
-def run_specs(ck, binpath, specs, tag, nproc=6):
+def run_specs(ck, binpath, specs, tag, nproc=6, died_ok=False):
     """run the executor on the specifications, nproc processes in parallel; returns the output files"""
     from concurrent.futures import ThreadPoolExecutor
+    if not specs:
+        return []
     nproc = max(1, min(nproc, len(specs)))
     chunks = [specs[i::nproc] for i in range(nproc)]
     with ThreadPoolExecutor(nproc) as ex:
         res = list(ex.map(lambda ic: run_chunk(ck, binpath, ic[1], "%s%d" % (tag, ic[0])), enumerate(chunks)))
     files = []
-    for (fout, rc, log) in res:
+    for (fout, rc, log), chunk in zip(res, chunks):
         if fout is None:
+            if died_ok:
+                # a panic inside the replicated state machine of the real NodeHost kills the process
+                m = re.search(r"panic: .*", log)
+                ck.violation("the Drummer process died in a closed-loop run on a real NodeHost: %s" % (m.group(0)[:200] if m else "rc %s" % rc),
+                             {"kind": "nodehost-died", "specs": chunk, "rc": rc, "log_tail": log[-4000:]})
+                continue
             ck.violation("closed-loop executor failed to run", {"kind": "executor", "rc": rc, "log_tail": log[-3000:]}, found_input=False)
             return None
         files.append(fout)
@@ -478,9 +490,11 @@ def run(ck):
     specs += [gen_spec(ck.rng, n_direct + i, "nodehost") for i in range(n_nh)]
     byid = dict((s["id"], s) for s in specs)
     t0 = time.time()
-    files = run_specs(ck, binpath, specs, "a")
+    files = run_specs(ck, binpath, [s for s in specs if s["backend"] == "direct"], "a")
     if files is None:
         return
+    files_nh = run_specs(ck, binpath, [s for s in specs if s["backend"] != "direct"], "n", nproc=2, died_ok=True)
+    files += files_nh or []
     ck.cov["go_wall_s"] = round(time.time() - t0, 1)
     agg, heal_hist, reported = {}, {}, set()
     cand = []        # (sort key, id, file) of the runs that may be replayed on the model
@@ -497,8 +511,16 @@ def run(ck):
                 ck.violation("closed-loop run could not be executed (infrastructure): " + r["abort"],
                              {"kind": "infra", "spec": spec}, found_input=False)
             else:
-                ck.violation("Drummer DB / leader loop failed in a closed-loop run: " + r["abort"],
-                             {"kind": "abort", "spec": spec, "trace_tail": [l[:400] for l in r["raw"] if l.startswith("E ")][-40:]})
+                bad, _ = monitor(r, spec)
+                for (pid, what) in bad:
+                    if pid != "C01" and (pid, what[:40]) not in reported and len(ck.violations) < 12:
+                        reported.add((pid, what[:40]))
+                        ck.violation("[%s] %s (run %d, aborted later: %s)" % (pid, what, r["id"], r["abort"]),
+                                     {"kind": "monitor", "clause": pid, "spec": spec, "trace": [l[:400] for l in r["raw"]][-300:]})
+                if ("abort", r["abort"][:40]) not in reported and len(ck.violations) < 12:
+                    reported.add(("abort", r["abort"][:40]))
+                    ck.violation("Drummer DB / leader loop failed in a closed-loop run: %s (run %d)" % (r["abort"], r["id"]),
+                                 {"kind": "abort", "spec": spec, "trace_tail": [l[:400] for l in r["raw"] if l.startswith("E ")][-40:]})
             return
         bad, st = monitor(r, spec)
         for k, v in st.items():
